@@ -15,7 +15,7 @@
 (* row count is (cases before failure) * rowsper per raw evaluation since  *)
 (* the last initialize.                                                    *)
 (***************************************************************************)
-EXTENDS F64, TraceIO, Sequences, FiniteSets
+EXTENDS F64, Dyadic, TraceIO, Sequences, FiniteSets
 VARIABLE tid
 
 FreshOf(c, x, m) == CHOOSE k \in 1..Len(c.fresh) : c.fresh[k].x = x /\ c.fresh[k].mode = m
@@ -50,7 +50,21 @@ Walk(c, i, mode, rows, acc) ==
                         ELSE {})
        IN Walk(c, i + 1, nmode, nrows, acc \cup bad)
 
-Verdict(c) == Walk(c, 1, "raw", 0, {})
+\* the arithmetic mean, recomputed exactly: the per-case merits js and the fresh value vs are given as natural
+\* numbers scaled by one common power of two (exact images of the doubles); n * v must equal the sum of the
+\* js up to the rounding of a float mean (relative 2^-40)
+RECURSIVE BSumAll(_, _)
+BSumAll(js, i) == IF i > Len(js) THEN <<>> ELSE BAdd(js[i], BSumAll(js, i + 1))
+MeanClauses(c) ==
+  IF c.variant # "mean" THEN {}
+  ELSE UNION {LET f == c.fresh[k] IN
+              IF f.mode # "raw" \/ f.failat <= c.ncases \/ Len(f.js) = 0 THEN {}
+              ELSE LET S == BSumAll(f.js, 1)
+                       nv == BMul(f.vs, BOfNat(Len(f.js)))
+                       diff == IF BLe(S, nv) THEN BSub(nv, S) ELSE BSub(S, nv)
+                   IN IF BLe(BMul(diff, P40), BAdd(S, <<1>>)) THEN {} ELSE {"value-not-the-mean-of-case-merits"}
+              : k \in 1..Len(c.fresh)}
+Verdict(c) == Walk(c, 1, "raw", 0, {}) \cup MeanClauses(c)
 Init == tid = 0
 Next == /\ tid < NCases /\ tid' = tid + 1
         /\ PrintT(<<"V", Cases[tid'].id, Verdict(Cases[tid'])>>)
